@@ -270,6 +270,14 @@ SliceIdx(n, start, stop, step) ==
   IN  SliceFrom(lo, hi, step)
 
 (* ------------------------ detector coverage ---------------------------- *)
+\* squared radius of the smallest cylinder about the rotation axis (through the origin, along the last
+\* coordinate) that contains the volume: the largest x^2 + y^2 over ALL corners of the domain
+CornerRho2(c) == QAddL(QSq(c[1]), QSq(c[2]))
+Rho2(corners) == QMaxSeq([i \in 1..Len(corners) |-> CornerRho2(corners[i])])
+\* Parallel beam, detector axis perpendicular to the rays: a point at distance rho from the axis is projected to
+\* a detector coordinate of magnitude at most rho, and the bound is attained during a half turn
+ParHalfWidth2(rho2) == rho2
+
 \* Divergent beam, flat detector through the detector reference point and perpendicular to the
 \* central ray: a point at distance rho from the rotation centre is projected to a detector
 \* coordinate of magnitude at most  rho (rs + rd) / sqrt(rs^2 - rho^2)   (tangent ray), and this
